@@ -9,6 +9,7 @@ import (
 	"encoding/binary"
 	"errors"
 	"fmt"
+	"hash/crc32"
 	"io"
 	"sort"
 	"sync"
@@ -808,4 +809,113 @@ func compareCtl(a, b []byte) int {
 		}
 	}
 	return len(a) - len(b)
+}
+
+// CLOSE-BEFORE-SIZE
+
+type ctlCoder struct {
+	pending []byte
+	final   []byte
+}
+
+func (c *ctlCoder) Close()         { c.final = append(c.final, c.pending...); c.pending = c.pending[:0] }
+func (c *ctlCoder) FinalSize() int { return len(c.final) }
+
+func BadSizeBeforeClose(enc *ctlCoder) bool {
+	hasData := enc.FinalSize() > 0
+	enc.Close()
+	return hasData
+}
+
+func GoodSizeAfterClose(enc *ctlCoder) bool {
+	enc.Close()
+	return enc.FinalSize() > 0
+}
+
+// WRAPPED-WRITER-HASHED / THREADED-RESULT
+
+type ctlHashWriter struct {
+	w   io.Writer
+	crc uint32
+	n   int
+}
+
+func (c *ctlHashWriter) Write(b []byte) (int, error) {
+	n, err := c.w.Write(b)
+	c.crc = crc32.Update(c.crc, crc32.IEEETable, b[:n])
+	c.n += n
+	return n, err
+}
+
+// BadReadFromUnhashed lets the destination take the bytes directly: counted, not hashed.
+func (c *ctlHashWriter) BadReadFromUnhashed(r io.Reader) (int64, error) {
+	rf, ok := c.w.(io.ReaderFrom)
+	if !ok {
+		return io.Copy(c, r)
+	}
+	n, err := rf.ReadFrom(r)
+	c.n += int(n)
+	return n, err
+}
+
+type ctlHashOnly struct{ c *ctlHashWriter }
+
+func (h ctlHashOnly) Write(b []byte) (int, error) {
+	h.c.crc = crc32.Update(h.c.crc, crc32.IEEETable, b)
+	return len(b), nil
+}
+
+func (c *ctlHashWriter) GoodReadFromTeed(r io.Reader) (int64, error) {
+	rf, ok := c.w.(io.ReaderFrom)
+	if !ok {
+		return io.Copy(c, r)
+	}
+	n, err := rf.ReadFrom(io.TeeReader(r, ctlHashOnly{c}))
+	c.n += int(n)
+	return n, err
+}
+
+func BadThreadedCursorReset(vals [][]byte, curr int, data []byte) (int, []byte, error) {
+	if len(vals) == 0 {
+		return 0, nil, nil
+	}
+	for _, v := range vals {
+		if len(v) > 1<<20 {
+			return 0, nil, errors.New("value too long")
+		}
+		data = append(data, v...)
+		curr += len(v)
+	}
+	return curr, data, nil
+}
+
+func GoodThreadedCursorKept(vals [][]byte, curr int, data []byte) (int, []byte, error) {
+	if len(vals) == 0 {
+		return curr, data, nil
+	}
+	for _, v := range vals {
+		if len(v) > 1<<20 {
+			return 0, nil, errors.New("value too long")
+		}
+		data = append(data, v...)
+		curr += len(v)
+	}
+	return curr, data, nil
+}
+
+func threadedCallersCtl(all [][][]byte) ([]byte, []byte, error) {
+	var a, b []byte
+	ca, cb := 0, 0
+	var err error
+	for _, vals := range all {
+		ca, a, err = BadThreadedCursorReset(vals, ca, a)
+		if err != nil {
+			return nil, nil, err
+		}
+		cb, b, err = GoodThreadedCursorKept(vals, cb, b)
+		if err != nil {
+			return nil, nil, err
+		}
+	}
+	return a[:ca], b[:cb], nil
 }
